@@ -84,6 +84,7 @@ func main() {
 	}
 	r := core.NewRun(id, tier, def.level)
 	def.fn(r)
+	retainLayer(r) // results held by the caller stay what they were (string constructors; see retain.go)
 	r.Finish()
 }
 
